@@ -1,5 +1,13 @@
-(* conversions between OCaml ints/strings and the extracted Coq numbers; hex I/O *)
-open Model
+(* conversions between OCaml ints/strings and the extracted Coq numbers; hex I/O.
+   Every extracted model file carries its own copy of the number types, hence a functor. *)
+module type NUMS = sig
+  type nat = O | S of nat
+  type positive = XI of positive | XO of positive | XH
+  type n = N0 | Npos of positive
+  type z = Z0 | Zpos of positive | Zneg of positive
+end
+module Make (M : NUMS) = struct
+open M
 
 let rec pos_of_int (i : int) : positive =
   if i = 1 then XH else if i land 1 = 1 then XI (pos_of_int (i lsr 1)) else XO (pos_of_int (i lsr 1))
@@ -31,4 +39,5 @@ let hex_of_string (s : string) : string =
 let words (line : string) : string list = List.filter (fun w -> w <> "") (String.split_on_char ' ' line)
 let iter_lines (f : string -> unit) : unit =
   try while true do let l = input_line stdin in if String.length l > 0 && l.[0] <> '#' then f l done with End_of_file -> ()
-let res_str (f : 'a -> string) (r : 'a res) : string = match r with Ok x -> f x | Crash -> "CRASH" | Fuel -> "FUEL"
+
+end
